@@ -10,7 +10,7 @@ import (
 )
 
 func init() {
-	register("C05", 30, "Decided (for every path of the current source): (R1) in the output pump every non-empty chunk is written to the terminal (the chunk itself, as returned by trace-log/detector) before the next read, or takes one of the enumerated claim edges (active transfer, zmodem session accepted it, trigger fired — written first, interrupting, matched echo of the drag-upload command), and is not written twice; (R2) in the input pump every path ends in writing the unmodified input to the server or in an enumerated claimer (prompt, transfer, zmodem transferring, drag detection / pending Windows path buffer that is later flushed verbatim); (R3) the claim flags are transient: interrupting is cleared on every path after it was set, skip-upload-command is cleared by the pump as soon as it is seen; (R4) the handler releases the session pointer by a deferred compare-and-swap registered at entry, non-nil stores are CAS from nil; the zmodem pointer is cleared on the decline edge; (R5) the detector returns its input (or the id-rewritten copy in relay+tmux mode) when it does not fire and never writes into its input; functions that receive the pump's reusable buffer do not retain it; (R6) the transfer hand-off never reuses a queued buffer; (R7) the wrapped command's exit code is returned after waiting. Not decided: exactly-once/in-order delivery across goroutines writing concurrently around a session's start/end, drag-path semantics, history effects at run time.",
+	register("C05", 30, "Decided (for every path of the current source): (R1) in the output pump every non-empty chunk is written to the terminal (the chunk itself, as returned by trace-log/detector) before the next read, or takes one of the enumerated claim edges (active transfer, zmodem session accepted it, trigger fired — written first, interrupting, matched echo of the drag-upload command), and is not written twice; (R2) in the input pump every path ends in writing the unmodified input to the server or in an enumerated claimer (prompt, transfer, zmodem transferring, drag detection / pending Windows path buffer that is later flushed verbatim); (R3) the claim flags are transient: interrupting is cleared on every path after it was set, skip-upload-command is cleared by the pump as soon as it is seen; (R4) the handler releases the session pointer by a deferred compare-and-swap registered at entry, non-nil stores are CAS from nil; the zmodem pointer is cleared on the decline edge; (R5) the detector returns its input (or the id-rewritten copy in relay+tmux mode) when it does not fire and never writes into its input; functions that receive the pump's reusable buffer do not retain it; (R6) the transfer hand-off never reuses a queued buffer; (R7) the wrapped command's exit code is returned after waiting. Not decided: exactly-once/in-order delivery across goroutines writing concurrently around a session's start/end, drag-path semantics, history effects at run time. (R8) the wrapper pumps hand on exactly what they read and end only on EOF; (R7) also: the four streams are wired stdin/stdout/pty.stdin/pty.stdout and the relay runs exactly with -r.",
 		func(c *Ctx) {
 			c.run("C05-R1", "MUST-PASS: output pump forwards unless claimed", c05R1)
 			c.run("C05-R2", "MUST-PASS: input pump forwards unless claimed", c05R2)
